@@ -258,6 +258,43 @@ func generate(cfg *hx.Config) []hx.Case {
 		}
 		_ = r
 	}
+	// request BODIES: a request whose round trip / CONNECT fails carries a body
+	// (Content-Length or chunked; opaque, or reading like a complete request);
+	// whatever happens to the exchange, the body must be gone from the
+	// connection when the next request is read
+	{
+		k := 0
+		for _, q := range []string{"c", "k", "r", "j"} {
+			type fk struct {
+				meth byte
+				oc   string
+				k    int
+			}
+			for _, f := range []fk{{'C', "ref", 0}, {'C', "tmo", 0}, {'C', "dns", 0},
+				{'P', "ref", 0}, {'P', "tmo", 0}, {'G', "ref", 0}, {'P', "gar", 1}, {'P', "gar", 12}, {'P', "cut", 0}, {'P', "cut", 20}, {'G', "gar", 2}} {
+				fe := &exch{ID: 10, Meth: f.meth, Outcome: f.oc, K: f.k, Status: 200, Framing: "c", BodyLen: 4, ReqBody: q}
+				ok1 := okEx(60, 'G', "c", 5, nil)
+				ok2 := okEx(61, 'P', "k", 6, []int{4})
+				ok2.ReqBody = []string{"", "c", "k"}[k%3]
+				mode := []string{"seq", "pipe", "seq"}[k%3]
+				switch k % 4 {
+				case 0:
+					add("reqbody", mode, fe, ok1, ok2)
+				case 1:
+					add("reqbody", mode, okEx(40, 'G', "c", 3, nil), fe, ok1)
+				case 2:
+					fe2 := *fe
+					fe2.ID = 11
+					add("reqbody", mode, fe, &fe2, ok2, ok1)
+				default:
+					pre := okEx(41, 'P', "c", 3, nil)
+					pre.ReqBody = q
+					add("reqbody", mode, pre, fe, ok2)
+				}
+				k++
+			}
+		}
+	}
 	// slow failures on the proxy with the short timeout: the connection lives
 	// longer than SetTimeout although every exchange stays far below it
 	ns := 8
@@ -340,6 +377,14 @@ func generate(cfg *hx.Config) []hx.Case {
 			e.V10 = r.Chance(1, 10)
 			if e.Meth == 'C' {
 				e.RC, e.V10 = false, false
+			}
+			if (e.Meth == 'C' && e.Outcome != "ok") || e.Meth == 'P' || e.Meth == 'G' {
+				if r.Chance(1, 3) {
+					e.ReqBody = pick(r, "c", "k", "r", "j")
+				}
+			}
+			if e.V10 && (e.ReqBody == "k" || e.ReqBody == "j") {
+				e.ReqBody = "c"
 			}
 			exs = append(exs, e)
 		}
@@ -569,6 +614,10 @@ func corpus() []hx.Case {
 			add(fmt.Sprintf("tunnel-%s-request-%d-chunked-cut-mid-body", car, pos+1), car+"seq", append(append([]*exch{}, exs...), &k, okEx(4, 'G', "c", 5, nil))...)
 		}
 	}
+	for _, q := range []string{"c", "k", "r", "j"} {
+		add("connect-with-body-"+q+"-refused-then-requests", "seq", &exch{ID: 18, Meth: 'C', Outcome: "ref", Status: 200, Framing: "c", BodyLen: 4, ReqBody: q}, okEx(19, 'G', "c", 5, nil), okEx(20, 'P', "c", 5, nil))
+	}
+	add("post-with-request-looking-body-refused-then-requests", "pipe", &exch{ID: 21, Meth: 'P', Outcome: "ref", Status: 200, Framing: "c", BodyLen: 4, ReqBody: "j"}, okEx(19, 'G', "c", 5, nil), okEx(20, 'P', "c", 5, nil))
 	var slow []*exch
 	for i := 0; i < 5; i++ {
 		slow = append(slow, &exch{ID: 20 + i, Meth: 'G', Outcome: []string{"ref", "tmo", "ref", "dns", "ref"}[i], Status: 200, Framing: "c", BodyLen: 4, Delay: 400})
